@@ -78,6 +78,20 @@ pub fn programs16() -> Vec<Prog> {
         }
         v.push(Prog::new(name, p, true));
     }
+    // a recursive call in the last word of user space (the inner RET reaches xFE00 while the
+    // outer call is still open), with a data word at xFE00 so that the loader's HALT is elsewhere
+    let mut p = Program::default();
+    p.items.push(Item::Orig(Lit::hex(0xFDF8)));
+    p.push(Some("first"), Stmt::And(1, 1, Src2::Imm(Lit::dec(0))));
+    p.push(None, Stmt::Add(1, 1, Src2::Imm(Lit::dec(2))));
+    p.push(None, Stmt::Br(0b111, "brnzp".into(), lbl("again")));
+    p.push(Some("down"), Stmt::Add(1, 1, Src2::Imm(Lit::dec(-1))));
+    p.push(None, Stmt::Br(0b001, "brp".into(), lbl("again")));
+    p.push(None, Stmt::Ret);
+    p.push(Some("end"), Stmt::Named(0x25, "halt"));
+    p.push(Some("again"), Stmt::Jsr(lbl("down")));
+    p.push(None, Stmt::Fill(Lit::hex(0x0000)));
+    v.push(Prog::new("recursive-call-in-last-word-of-user-space", p, true));
     // ... and stored there by the program before it jumps (xFFFF: a JSRR word)
     let mut p = Program::default();
     p.push(Some("first"), Stmt::Mem(PcRel::Ld, 0, lbl("word")));
